@@ -764,6 +764,78 @@ def built_parts(term, out=None):
     return out
 
 
+def writer_entry_blocks(tonic, th):
+    """where Status::to_header_map hands the map to the status writer: the call of add_header, or — when add_header and to_header_map
+    both are thin wrappers of one new private writer function that was spliced into each — the block where that writer was entered"""
+    sites = [bb for bb, t in th.calls(name='add_header')]
+    if sites:
+        return sites
+    ah = tonic.body('status::Status::add_header')
+    mark = lambda b_: {b_.term(bb_).get('inlined'): bb_ for bb_ in b_.live_blocks() if b_.term(bb_)['k'] == 'goto' and b_.term(bb_).get('inlined')}
+    ma, mt = mark(ah), mark(th)
+    shared = [h_ for h_ in mt if h_ in ma and ah.calls(pat='HeaderMap', name='insert')]
+    # helpers of the writer are spliced too: the writer is the outermost one (its entry dominates the others)
+    outer = [h_ for h_ in shared if not any(o_ != h_ and th.dominates(mt[o_], mt[h_]) for o_ in shared)]
+    return [mt[h_] for h_ in outer]
+
+
+def flows_to_return(body, l_, depth=0):
+    """is local l_ the return place, or moved (possibly through the return slot of a spliced helper / a `?`) into it"""
+    if l_ == 0:
+        return True
+    if depth > 3:
+        return False
+    for bb_ in body.live_blocks():
+        for st_ in body.blocks[bb_]['stmts']:
+            u_ = (st_.get('rv') or {}).get('use') if isinstance(st_.get('rv'), dict) else None
+            src_ = (u_.get('mv') or u_.get('cp')) if isinstance(u_, dict) else None
+            if src_ and src_.get('l') == l_ and not src_.get('pr') and st_.get('p') and not st_['p'].get('pr') and flows_to_return(body, st_['p']['l'], depth + 1):
+                return True
+    return False
+
+
+def opt_eq_form(crate, term):
+    """`opt.is_some_and(|v| v == K)` read as the comparison `opt == Some(K)`: returns (opt term, K term) or None"""
+    c = strip_refs(term)
+    if not (is_call(c, name='is_some_and') and 'Option' in c[1] and len(c[2]) == 2):
+        return None
+    pb = _closure_body(crate, c[2][1])
+    if pb is None:
+        return None
+    rt = mirlib.returned_terms(pb)
+    if len(rt) != 1:
+        return None
+    r = strip_refs(rt[0][1])
+    if not (is_call(r, name='eq') and len(r[2]) == 2):
+        return None
+    elem = [x for x in r[2] if mentions_arg(x, 2)]
+    other = [x for x in r[2] if not mentions_arg(x, 2)]
+    if len(elem) != 1 or len(other) != 1:
+        return None
+    return c[2][0], other[0]
+
+
+def status_response_sites(tonic, body):
+    """where `body` turns a Status into the head of a trailers-only response: [(bb, pseudo call term with 'args')] for calls of
+    Status::into_http, and — when into_http has become a thin wrapper of a new crate-private function taking the empty body as an
+    argument (spliced into every caller, into_http included) — for the places where that shared function was entered (the
+    arguments are the operands bound at the splice: the status first)"""
+    sites = [(bb, t) for bb, t in body.calls(pat='Status::into_http')]
+    try:
+        ih = tonic.body('status::Status::into_http')
+    except CheckError:
+        return sites
+    mark = lambda b_: {b_.term(bb_).get('inlined'): bb_ for bb_ in b_.live_blocks() if b_.term(bb_)['k'] == 'goto' and b_.term(bb_).get('inlined')}
+    mi = mark(ih)
+    shared = [h_ for h_ in mi if any(t_.get('name') in ('to_header_map', 'add_header') for x_ in tonic.helper_defs.values() if x_.path == h_ for bb_, t_ in x_.calls())]
+    for bb_ in sorted(body.live_blocks()):
+        t_ = body.term(bb_)
+        if t_['k'] == 'goto' and t_.get('inlined') in shared:
+            args = [st['rv']['use'] for st in body.blocks[bb_]['stmts'] if isinstance(st, dict) and st.get('inl') and isinstance(st.get('rv'), dict) and 'use' in st['rv']]
+            sites.append((bb_, {'k': 'call', 'name': 'into_http', 'fn': t_['inlined'], 'args': args, 'spliced': True}))
+    return sites
+
+
 def returned_aggs(body, adt_suffix, variant):
     """[(bb, i, place, aggdict, ops)] of the aggregates of that kind that are part of what the function returns"""
     rets = mirlib.returned_terms(body)
@@ -886,6 +958,28 @@ def loc_of(term):
         else:
             return None
     return None
+
+
+def enc_opt_pat(crate):
+    """regex for "the optional compression of a message": Option<CompressionEncoding>, or Option<S> for a struct S of this crate that
+    carries exactly one CompressionEncoding (CompressionSettings{encoding, ..}, a private {encoding, level} pair ..)"""
+    c = getattr(crate, '_enc_opt_pat', None)
+    if c is None:
+        names = ['CompressionEncoding']
+        for path, ad in crate.adts.items():
+            if ad.get('kind') == 'struct' and len([f for f in ad['variants'][0]['fields'] if re.search(r'(^|::)CompressionEncoding$', f['ty'])]) == 1:
+                names.append(re.escape(path.split('::')[-1]))
+        c = crate._enc_opt_pat = r'Option<(\w+::)*(%s)>' % '|'.join(names)
+    return c
+
+
+def enc_field(crate, adt_suffix):
+    """name of the field of a struct that holds the optional compression of a message (by type, see enc_opt_pat)"""
+    ad = crate.adt(adt_suffix)
+    fs = [f['n'] for f in ad['variants'][0]['fields'] if re.search(enc_opt_pat(crate), f['ty'])]
+    if len(fs) != 1:
+        raise CheckError('UNRECOGNISED: %s has %d fields holding an optional compression encoding' % (adt_suffix, len(fs)))
+    return fs[0]
 
 
 def locs_of_type(crate, body, pat):
